@@ -50,12 +50,12 @@ package policy
 //@   : (j < len(s) && s[j] == p[i] && globM(p, s, i+1, j+1))
 //@
 //@ // a star can absorb: if the star at a matches from m, the rest matches from some k >= m
-//@ lemma star_absorbs(p string, s string, a int, m int):
+//@ lemma [C13] star_absorbs(p string, s string, a int, m int):
 //@     0 <= a && a < len(p) && p[a] == '*' && 0 <= m && m <= len(s) && globM(p, s, a, m)
 //@     ==> (exists k int :: m <= k && k <= len(s) && globM(p, s, a+1, k)) by induction on len(s) - m
 //@   trigger globM(p, s, a, m)
 //@ // a star can start earlier
-//@ lemma star_earlier(p string, s string, a int, m int, x int):
+//@ lemma [C13] star_earlier(p string, s string, a int, m int, x int):
 //@     0 <= a && a < len(p) && p[a] == '*' && 0 <= m && m <= x && x <= len(s) && globM(p, s, a, x)
 //@     ==> globM(p, s, a, m) by induction on x - m
 //@   trigger globM(p, s, a, x), globM(p, s, a, m)
